@@ -251,13 +251,17 @@ pub fn comps<S: Sc>(v: &Val<S>) -> Option<Vec<S>> {
 }
 fn bools<S: Sc>(bs: Vec<bool>) -> Val<S> { Val::Tup(bs.into_iter().map(Val::B).collect()) }
 
+fn def_eps<T: AbsDiffEq>(_: &T) -> T::Epsilon { T::default_epsilon() }
+fn def_rel<T: RelativeEq>(_: &T) -> T::Epsilon { T::default_max_relative() }
+fn def_ulps<T: UlpsEq>(_: &T) -> u32 { T::default_max_ulps() }
 macro_rules! approx_arms {
     ($op:expr, $f:expr, $a:expr, $($V:ident),+) => {
         match ($op, $a) {
             $(
-            ("abs_diff_eq", [Val::$V(x), Val::$V(y), Val::N(e)]) => Some(if $f == "default" { x.abs_diff_eq(y, <S as AbsDiffEq>::default_epsilon()) } else { x.abs_diff_eq(y, *e) }),
-            ("relative_eq", [Val::$V(x), Val::$V(y), Val::N(e), Val::N(r)]) => Some(if $f == "default" { x.relative_eq(y, <S as AbsDiffEq>::default_epsilon(), <S as RelativeEq>::default_max_relative()) } else { x.relative_eq(y, *e, *r) }),
-            ("ulps_eq", [Val::$V(x), Val::$V(y), Val::N(e), Val::I(u)]) => Some(if $f == "default" { x.ulps_eq(y, <S as AbsDiffEq>::default_epsilon(), <S as UlpsEq>::default_max_ulps()) } else { x.ulps_eq(y, *e, *u as u32) }),
+            // form "default": the compound type's own default tolerances (they are the scalar's)
+            ("abs_diff_eq", [Val::$V(x), Val::$V(y), Val::N(e)]) => Some(if $f == "default" { x.abs_diff_eq(y, def_eps(x)) } else { x.abs_diff_eq(y, *e) }),
+            ("relative_eq", [Val::$V(x), Val::$V(y), Val::N(e), Val::N(r)]) => Some(if $f == "default" { x.relative_eq(y, def_eps(x), def_rel(x)) } else { x.relative_eq(y, *e, *r) }),
+            ("ulps_eq", [Val::$V(x), Val::$V(y), Val::N(e), Val::I(u)]) => Some(if $f == "default" { x.ulps_eq(y, def_eps(x), def_ulps(x)) } else { x.ulps_eq(y, *e, *u as u32) }),
             ("eq", [Val::$V(x), Val::$V(y)]) => Some(x == y),
             )+
             _ => None,
@@ -274,6 +278,10 @@ pub fn exec_approx<S: Sc + BaseFloat>(op: &str, f: &str, a: &[Val<S>]) -> Option
         let is_mat_default = f == "default" && matches!(a[0], M2(_) | M3(_) | M4(_) | B2(_) | B3(_));
         let _ = is_mat_default;
         let sv: Vec<bool> = xs.iter().zip(ys.iter()).map(|(x, y)| match (op, a) {
+            // form "default": the scalar's own defaults, whatever numbers the call carries
+            ("abs_diff_eq", _) if f == "default" => x.abs_diff_eq(y, <S as AbsDiffEq>::default_epsilon()),
+            ("relative_eq", _) if f == "default" => x.relative_eq(y, <S as AbsDiffEq>::default_epsilon(), <S as RelativeEq>::default_max_relative()),
+            ("ulps_eq", _) if f == "default" => x.ulps_eq(y, <S as AbsDiffEq>::default_epsilon(), <S as UlpsEq>::default_max_ulps()),
             ("abs_diff_eq", [_, _, N(e)]) => x.abs_diff_eq(y, *e),
             ("relative_eq", [_, _, N(e), N(r)]) => x.relative_eq(y, *e, *r),
             ("ulps_eq", [_, _, N(e), I(u)]) => x.ulps_eq(y, *e, *u as u32),
